@@ -93,6 +93,11 @@ pub trait Scenario: Sync + Send {
     fn isolated(&self) -> bool {
         false
     }
+    /// Cases so cheap (microseconds) and so numerous that a thread per case would dominate the
+    /// batch: they run on the worker thread itself.
+    fn light(&self) -> bool {
+        false
+    }
 }
 
 pub fn to_value<T: serde::Serialize>(t: &T) -> Value {
